@@ -1550,7 +1550,13 @@ fn run_enumeration(plan: &EnginePlan, res: &mut RunResult) -> Result<(u64, u64, 
             let mut c = base.clone();
             let mut follow: Vec<Cycle> = Vec::new();
             match kind {
-                0 => c.events = vec![Ev { at_node: *nodes, lines: vec!["stop".into()] }],
+                0 => {
+                    c.events = vec![Ev { at_node: *nodes, lines: vec!["stop".into()] }];
+                    if idx % 2 == 1 {
+                        // a redundant second stop arriving after the bestmove (engine idle)
+                        c.post_lines = vec!["stop".into()];
+                    }
+                }
                 1 => c.events = vec![Ev { at_node: *nodes, lines: vec!["quit".into()] }],
                 _ => {
                     // sudden simulated-clock expiry of movetime observed exactly at this poll:
@@ -1612,7 +1618,13 @@ pub fn exec_plan(plan: &EnginePlan) -> RunResult {
             res.sim_ns = ns;
         }
         Err(v) => {
-            if v.property == focus || equivalent_focus(&focus, &v.property) {
+            if v.property == focus {
+                res.violation = Some(v);
+            } else if equivalent_focus(&focus, &v.property) {
+                let mut v = v;
+                v.class = format!("follow_up_{}", v.class);
+                v.detail = format!("[{} oracle] {}", v.property, v.detail);
+                v.property = focus.clone();
                 res.violation = Some(v);
             } else {
                 res.foreign = Some(v);
@@ -1624,7 +1636,9 @@ pub fn exec_plan(plan: &EnginePlan) -> RunResult {
 
 fn equivalent_focus(focus: &str, prop: &str) -> bool {
     // engine-level checks that own more than one oracle
-    matches!((focus, prop), ("C15e", "C15"))
+    // C09's text covers the follow-up search too ("its bestmove is legal there"): a failed follow-up
+    // after an interruption is a C09 violation in the enumeration check
+    matches!((focus, prop), ("C09", "C07"))
 }
 
 pub fn shrink_candidates(plan: &EnginePlan) -> Vec<EnginePlan> {
